@@ -352,6 +352,11 @@ func cmdCheck(args []string) {
 			continue
 		}
 		ok, detail := nativeReplay(*repo, *verif, pdir, id, p.group, path, scratch)
+		for try := 0; !ok && try < 2 && strings.HasPrefix(detail, "assertion held natively"); try++ {
+			// schedules and timing of concurrent harnesses are not forced
+			// natively: a counterexample gets three attempts to reproduce
+			ok, detail = nativeReplay(*repo, *verif, pdir, id, p.group, path, scratch)
+		}
 		replays = append(replays, replayOutcome{path, ok, detail})
 		if ok {
 			violations++
